@@ -30,7 +30,7 @@ impl ST {
     }
 }
 
-#[derive(Clone, Debug, PartialEq, Eq, PartialOrd, Ord)]
+#[derive(Clone, Debug, PartialEq, Eq, PartialOrd, Ord, Hash)]
 pub struct CellRec {
     pub tx_hash: String,
     pub index: u32,
@@ -42,7 +42,7 @@ pub struct CellRec {
     pub data: String,
 }
 
-#[derive(Clone, Debug, PartialEq, Eq, PartialOrd, Ord)]
+#[derive(Clone, Debug, PartialEq, Eq, PartialOrd, Ord, Hash)]
 pub struct TxRec {
     pub block: u64,
     pub tx_index: u32,
